@@ -27,6 +27,11 @@ def gen_cases(rng, twins, quick):
             cases.append({"mode": "accept", "outer": rng.random() < 0.5, "calls": [{"twin": t["id"], "n": n}], "schedule": []})
             if not quick or rng.random() < 0.5:
                 cases.append({"mode": rng.choice(["none", "never", "dynamic", "cap"]), "outer": rng.random() < 0.5, "calls": [{"twin": t["id"], "n": n}], "schedule": []})
+            # a collector accepting exactly the levels up to thr (hint = thr): the span and each ret / err event are judged by their own level
+            lv = sorted({t["level"], t["retcfg"]["level"], t["errcfg"]["level"]} - {0})
+            if len(lv) > 1 or not quick or rng.random() < 0.3:
+                thr = rng.choice([x for x in range(1, 5) if lv[0] <= x < lv[-1]] or [rng.randint(1, 4)])
+                cases.append({"mode": "thr", "thr": thr, "outer": rng.random() < 0.5, "calls": [{"twin": t["id"], "n": n}], "schedule": []})
     asyncs = [t for t in twins if t["kind"] != "sync"]
     for _ in range(150 if quick else 2500):
         k = rng.choice([2, 2, 3])
